@@ -29,18 +29,45 @@
 (* the table, leaves its lock free (regLock; MarkMode = "leak-on-missing"  *)
 (* is the broken instance that returns on that path without unlocking, so  *)
 (* that no later connection can even count the registrations).             *)
+(* The table has a HISTORY, and connections come one after another: the    *)
+(* module follows one registration R on the phantom ("the registration of  *)
+(* interest"; everything else on the phantom is static and folded into the *)
+(* case).  tab = what the table holds for R ("tracked" = ingested, not yet *)
+(* validated; "valid"; "gone" = never seen / expired and swept); entitled  *)
+(* = what the HISTORY of register / validate / expire operations says: R   *)
+(* is validated and unexpired right now (a ghost - the property's words).  *)
+(* Table operations between connections: Validate (the ingest's            *)
+(* AddRegistration after the liveness scan), SweepIdle (R outlived its     *)
+(* lifetime, the sweeper removed it), Retrack (a new registration message  *)
+(* for R after it was removed).  NextConn(d) starts the next connection to *)
+(* the same phantom against the table as it is now; a case with own = TRUE *)
+(* is R's flight (a first connection, a reconnect, a censor's replay),     *)
+(* own = FALSE is anything else (another client of the phantom, a probe).  *)
+(* What a transport's lookup returns for R is Vis.  The code reads the     *)
+(* table on every lookup (LookupMode = "fresh"); "stale-after-validate" is *)
+(* a broken instance that memoises the per-phantom view and drops it only  *)
+(* when the tracked SET changes (Retrack, sweeps) - a connection while R   *)
+(* is tracked-only hides R from its own client after Validate.             *)
+(* MarkMode = "reinsert-on-missing" is the broken instance whose           *)
+(* MarkActive, finding no expiry record (SweepRemoves was faster), files   *)
+(* the stale registration object again: R is valid in the table although   *)
+(* no history entitles it, and a replay of its flight opens a tunnel.      *)
 (* The peer sends its stream in arbitrary segments, may idle, may close.   *)
 (*                                                                         *)
 (* A case fixes what the peer's stream is, in the terms the property uses: *)
 (*   t     transport whose genuine first flight the stream is ("none")     *)
 (*   ok    the flight is genuine, unaltered, and a registration with the   *)
-(*         same secret, transport (and prefix) is currently valid on the   *)
-(*         phantom that is being connected to                              *)
+(*         same secret, transport (and prefix) is on the phantom that is   *)
+(*         being connected to - currently valid there if it is one of the  *)
+(*         static ones (own = FALSE); for R the table says (tab, entitled) *)
 (*   terr  the flight carries a valid tag of a valid registration on this  *)
 (*         phantom but for another prefix id (transport reports an error)  *)
 (*   H     number of leading bytes that make up the handshake              *)
 (*   pofs  length of the static prefix the stream starts with (0 if none)  *)
 (*   total bytes the peer will send; occ: registrations tracked on phantom *)
+(*   own   the stream is R's flight: ok / terr then say what the flight    *)
+(*         is (genuine, unaltered, right transport and prefix / wrong      *)
+(*         prefix) and whether R is acceptable NOW is the table's business *)
 (* Thresholds are CONSTANTS: real values for trace validation, scaled ones *)
 (* for exhaustive checking.                                                *)
 (***************************************************************************)
@@ -53,8 +80,10 @@ CONSTANTS MinTag,      \* 32  : length of the min transport's tag
           MaxRead,     \* 4096: read buffer of the handler
           MaxW,        \* bound on the number of modelled writes (bounding only)
           Cases,       \* set of case records explored by TLC
-          MarkMode,    \* "release" | "leak-on-missing"
-          DeadlineSource \* "private" | "shared"
+          MarkMode,    \* "release" | "leak-on-missing" | "reinsert-on-missing"
+          DeadlineSource, \* "private" | "shared"
+          LookupMode,  \* "fresh" | "stale-after-validate"
+          MaxConns     \* connections per history (bounding only)
 
 Transports == {"min", "prefix", "obfs4"}
 None == "none"
@@ -74,29 +103,44 @@ VARIABLES c,          \* the case
           regLock,    \* "free" | "held": the registration table's mutex between critical sections
           seeded,     \* an outsider's registration has put the generator the deadline is drawn from into a state it knows
           dlKnown,    \* this connection's deadline was drawn from such a state
+          tab,        \* what the table holds for R: "tracked" | "valid" | "gone"
+          entitled,   \* ghost: by the history of register / validate / expire operations R is validated and unexpired now
+          snap,       \* memoised per-phantom view of R ("none": nothing memoised; only LookupMode # "fresh" ever fills it)
+          conns,      \* connections so far in this history
           obs
 
-vars == <<c, phase, alive, todo, rcvd, sent, readn, written, dlSet, expired, peerClosed, matched, consumed, used, returned, swept, regLock, seeded, dlKnown, obs>>
-view == <<c, phase, alive, todo, rcvd, sent, readn, written, dlSet, expired, peerClosed, matched, consumed, used, returned, swept, regLock, seeded, dlKnown>>
+tbl == <<tab, entitled, snap, conns>>
+vars == <<c, phase, alive, todo, rcvd, sent, readn, written, dlSet, expired, peerClosed, matched, consumed, used, returned, swept, regLock, seeded, dlKnown, tab, entitled, snap, conns, obs>>
+view == <<c, phase, alive, todo, rcvd, sent, readn, written, dlSet, expired, peerClosed, matched, consumed, used, returned, swept, regLock, seeded, dlKnown, tab, entitled, snap, conns>>
 
 avail == sent - readn
+
+\* ------------------------------ the table ------------------------------
+\* what a transport's lookup on the phantom shows for R
+Vis == IF LookupMode = "fresh" \/ snap = "none" THEN tab = "valid" ELSE snap = "valid"
+OkNow   == c.ok   /\ (c.own => Vis)
+TerrNow == c.terr /\ (c.own => Vis)
+\* the property's side: the flight proves the secret of a registration that is validated and unexpired (or was, when this
+\* connection's matching verdict was produced: swept).  It speaks about the connection while it is being handled: once the
+\* handler has returned the table moves on (every state of the connection itself has been judged by then).
+Ent == c.ok /\ (c.own => (entitled \/ swept \/ phase = "returned"))
 
 \* ------------------------- transport verdicts -------------------------
 \* what WrapConnection of transport t answers when offered the first n bytes of the case's stream
 Verdict(t, n) ==
   CASE t = "min" ->
          IF n < MinTag THEN "again"
-         ELSE IF c.t = "min" /\ c.ok THEN "match" ELSE "not"
+         ELSE IF c.t = "min" /\ OkNow THEN "match" ELSE "not"
     [] t = "prefix" ->
          IF n < PfxTag THEN "again"
          ELSE IF n < c.pofs + PfxTag THEN "again"
-         ELSE IF c.t = "prefix" /\ c.ok THEN "match"
-         ELSE IF c.t = "prefix" /\ c.terr THEN "error"
+         ELSE IF c.t = "prefix" /\ OkNow THEN "match"
+         ELSE IF c.t = "prefix" /\ TerrNow THEN "error"
          ELSE "not"
     [] t = "obfs4" ->
          IF n < ObfsMin THEN "again"
-         ELSE IF c.t = "obfs4" /\ c.ok /\ n = c.H THEN "match"
-         ELSE IF c.t = "obfs4" /\ c.terr /\ n = c.H THEN "error"
+         ELSE IF c.t = "obfs4" /\ OkNow /\ n = c.H THEN "match"
+         ELSE IF c.t = "obfs4" /\ TerrNow /\ n = c.H THEN "error"
          ELSE IF n < ObfsMax THEN "again" ELSE "not"
 
 Init == /\ c \in Cases
@@ -105,18 +149,19 @@ Init == /\ c \in Cases
         /\ dlSet = FALSE /\ expired = FALSE /\ peerClosed = FALSE
         /\ matched = None /\ consumed = 0 /\ used = FALSE /\ returned = FALSE
         /\ swept = FALSE /\ regLock = "free" /\ seeded = FALSE /\ dlKnown = FALSE
+        /\ tab \in {"valid", "tracked", "gone"} /\ entitled = (tab = "valid") /\ snap = "none" /\ conns = 1
         /\ obs = [a |-> "Init"]
 
 \* ------------------------------ the peer ------------------------------
 Send(k) == /\ ~peerClosed /\ k > 0 /\ sent + k <= c.total
            /\ sent' = sent + k
-           /\ UNCHANGED <<seeded, dlKnown, swept, regLock, c, phase, alive, todo, rcvd, readn, written, dlSet, expired, peerClosed, matched, consumed, used, returned>>
+           /\ UNCHANGED <<tab, entitled, snap, conns, seeded, dlKnown, swept, regLock, c, phase, alive, todo, rcvd, readn, written, dlSet, expired, peerClosed, matched, consumed, used, returned>>
            /\ obs' = [a |-> "Send", k |-> k]
 PeerClose == /\ ~peerClosed /\ peerClosed' = TRUE
-             /\ UNCHANGED <<seeded, dlKnown, swept, regLock, c, phase, alive, todo, rcvd, sent, readn, written, dlSet, expired, matched, consumed, used, returned>>
+             /\ UNCHANGED <<tab, entitled, snap, conns, seeded, dlKnown, swept, regLock, c, phase, alive, todo, rcvd, sent, readn, written, dlSet, expired, matched, consumed, used, returned>>
              /\ obs' = [a |-> "PeerClose"]
 Expire == /\ dlSet /\ ~expired /\ matched = None /\ expired' = TRUE
-          /\ UNCHANGED <<seeded, dlKnown, swept, regLock, c, phase, alive, todo, rcvd, sent, readn, written, dlSet, peerClosed, matched, consumed, used, returned>>
+          /\ UNCHANGED <<tab, entitled, snap, conns, seeded, dlKnown, swept, regLock, c, phase, alive, todo, rcvd, sent, readn, written, dlSet, peerClosed, matched, consumed, used, returned>>
           /\ obs' = [a |-> "Expire"]
 
 \* ----------------------------- the handler -----------------------------
@@ -124,7 +169,7 @@ HInit == /\ phase = "init"
          /\ regLock = "free"                    \* countRegistrations takes the table's read lock
          /\ dlSet' = TRUE /\ dlKnown' = seeded
          /\ phase' = IF c.occ = 0 THEN "drain" ELSE "read"
-         /\ UNCHANGED <<seeded, swept, regLock, c, alive, todo, rcvd, sent, readn, written, expired, peerClosed, matched, consumed, used, returned>>
+         /\ UNCHANGED <<tab, entitled, snap, conns, seeded, swept, regLock, c, alive, todo, rcvd, sent, readn, written, expired, peerClosed, matched, consumed, used, returned>>
          /\ obs' = [a |-> "SetDeadline"]
 
 Return(why) == /\ returned' = TRUE /\ phase' = "returned"
@@ -141,7 +186,7 @@ HRead ==
           /\ obs' = [a |-> "Read", n |-> k] /\ UNCHANGED returned
      ELSE IF peerClosed THEN Return("closed") /\ UNCHANGED <<rcvd, readn, todo>>
      ELSE /\ expired /\ Return("timeout") /\ UNCHANGED <<rcvd, readn, todo>>
-  /\ UNCHANGED <<seeded, dlKnown, swept, regLock, c, alive, sent, written, dlSet, expired, peerClosed, matched, consumed, used>>
+  /\ UNCHANGED <<tab, entitled, snap, conns, seeded, dlKnown, swept, regLock, c, alive, sent, written, dlSet, expired, peerClosed, matched, consumed, used>>
 
 HOffer(t) ==
   /\ phase = "offer" /\ t \in todo
@@ -153,17 +198,18 @@ HOffer(t) ==
                             /\ phase' = IF todo' = {} THEN "read" ELSE "offer"
           [] v = "error" -> /\ phase' = "sleep" /\ todo' = {} /\ UNCHANGED <<alive, matched, consumed>>
           [] v = "match" -> /\ phase' = "found" /\ todo' = {} /\ matched' = t /\ consumed' = c.H /\ UNCHANGED alive
-  /\ UNCHANGED <<seeded, dlKnown, swept, regLock, c, rcvd, sent, readn, written, dlSet, expired, peerClosed, used, returned>>
+  /\ snap' = IF LookupMode # "fresh" /\ snap = "none" THEN tab ELSE snap      \* the lookup (memoised only by the broken instance)
+  /\ UNCHANGED <<tab, entitled, conns, seeded, dlKnown, swept, regLock, c, rcvd, sent, readn, written, dlSet, expired, peerClosed, used, returned>>
 
 HDrain ==
   /\ phase = "drain"
   /\ IF avail > 0 THEN \E k \in 1..avail : /\ readn' = readn + k /\ obs' = [a |-> "Read", n |-> k] /\ UNCHANGED <<returned, phase>>
      ELSE IF peerClosed THEN Return("closed") /\ UNCHANGED readn
      ELSE /\ expired /\ Return("timeout") /\ UNCHANGED readn
-  /\ UNCHANGED <<seeded, dlKnown, swept, regLock, c, alive, todo, rcvd, sent, written, dlSet, expired, peerClosed, matched, consumed, used>>
+  /\ UNCHANGED <<tab, entitled, snap, conns, seeded, dlKnown, swept, regLock, c, alive, todo, rcvd, sent, written, dlSet, expired, peerClosed, matched, consumed, used>>
 
 HSleep == /\ phase = "sleep" /\ expired /\ Return("slept")
-          /\ UNCHANGED <<seeded, dlKnown, swept, regLock, c, alive, todo, rcvd, sent, readn, written, dlSet, expired, peerClosed, matched, consumed, used>>
+          /\ UNCHANGED <<tab, entitled, snap, conns, seeded, dlKnown, swept, regLock, c, alive, todo, rcvd, sent, readn, written, dlSet, expired, peerClosed, matched, consumed, used>>
 
 \* found: the deadline is cleared, the registration marked used, the relay takes over (the bytes after the
 \* handshake that are already in the buffer are replayed in front of the live connection)
@@ -171,12 +217,13 @@ HFound == /\ phase = "found"
           /\ regLock = "free"                   \* markActive takes the table's write lock ...
           /\ dlSet' = FALSE /\ used' = ~swept /\ phase' = "relay"
           /\ regLock' = IF swept /\ MarkMode = "leak-on-missing" THEN "held" ELSE "free"   \* ... and releases it on every path
-          /\ UNCHANGED <<seeded, dlKnown, swept, c, alive, todo, rcvd, sent, readn, written, expired, peerClosed, matched, consumed, returned>>
+          /\ tab' = IF swept /\ MarkMode = "reinsert-on-missing" THEN "valid" ELSE tab          \* ... and never files anything
+          /\ UNCHANGED <<entitled, snap, conns, seeded, dlKnown, swept, c, alive, todo, rcvd, sent, readn, written, expired, peerClosed, matched, consumed, returned>>
           /\ obs' = [a |-> "Found", t |-> matched]
 \* the expiry sweeper (another goroutine) removes the matched registration between the lookup and MarkActive
-SweepRemoves == /\ phase = "found" /\ ~swept /\ regLock = "free"
-                /\ swept' = TRUE
-                /\ UNCHANGED <<seeded, dlKnown, regLock, c, phase, alive, todo, rcvd, sent, readn, written, dlSet, expired, peerClosed, matched, consumed, used, returned>>
+SweepRemoves == /\ phase = "found" /\ ~swept /\ regLock = "free" /\ c.own
+                /\ swept' = TRUE /\ tab' = "gone" /\ entitled' = FALSE /\ snap' = "none"
+                /\ UNCHANGED <<conns, seeded, dlKnown, regLock, c, phase, alive, todo, rcvd, sent, readn, written, dlSet, expired, peerClosed, matched, consumed, used, returned>>
                 /\ obs' = [a |-> "Swept"]
 \* after authentication the station may write (obfs4 server handshake, covert replies)
 \* (obfs4 writes its server handshake inside WrapConnection, i.e. while the matching verdict is being produced)
@@ -184,48 +231,80 @@ HWrite == /\ \/ phase \in {"found", "relay"}
              \/ (phase = "offer" /\ \E t \in todo : Verdict(t, rcvd) = "match")
           /\ written < MaxW
           /\ written' = written + 1
-          /\ UNCHANGED <<seeded, dlKnown, swept, regLock, c, phase, alive, todo, rcvd, sent, readn, dlSet, expired, peerClosed, matched, consumed, used, returned>>
+          /\ UNCHANGED <<tab, entitled, snap, conns, seeded, dlKnown, swept, regLock, c, phase, alive, todo, rcvd, sent, readn, dlSet, expired, peerClosed, matched, consumed, used, returned>>
           /\ obs' = [a |-> "Write"]
 HRelayRead == /\ phase = "relay" /\ avail > 0
               /\ \E k \in 1..avail : readn' = readn + k /\ obs' = [a |-> "Read", n |-> k]
-              /\ UNCHANGED <<seeded, dlKnown, swept, regLock, c, phase, alive, todo, rcvd, sent, written, dlSet, expired, peerClosed, matched, consumed, used, returned>>
+              /\ UNCHANGED <<tab, entitled, snap, conns, seeded, dlKnown, swept, regLock, c, phase, alive, todo, rcvd, sent, written, dlSet, expired, peerClosed, matched, consumed, used, returned>>
 \* the relay ends when either side ends (Relay.tla has the details); the handler then returns
 HRelayReturn == /\ phase = "relay" /\ Return("relayed")
-                /\ UNCHANGED <<seeded, dlKnown, swept, regLock, c, alive, todo, rcvd, sent, readn, written, dlSet, expired, peerClosed, matched, consumed, used>>
+                /\ UNCHANGED <<tab, entitled, snap, conns, seeded, dlKnown, swept, regLock, c, alive, todo, rcvd, sent, readn, written, dlSet, expired, peerClosed, matched, consumed, used>>
 
 Handler == HInit \/ HRead \/ (\E t \in Transports : HOffer(t)) \/ HDrain \/ HSleep \/ HFound \/ HWrite \/ HRelayRead \/ HRelayReturn
 \* an outsider registers as a legacy client just before it connects
 LegacySelect == /\ phase = "init" /\ ~seeded
                 /\ seeded' = (DeadlineSource = "shared")
-                /\ UNCHANGED <<dlKnown, swept, regLock, c, phase, alive, todo, rcvd, sent, readn, written, dlSet, expired, peerClosed, matched, consumed, used, returned>>
+                /\ UNCHANGED <<tab, entitled, snap, conns, dlKnown, swept, regLock, c, phase, alive, todo, rcvd, sent, readn, written, dlSet, expired, peerClosed, matched, consumed, used, returned>>
                 /\ obs' = [a |-> "LegacyReg"]
-Peer == (\E k \in 1..3 : Send(k)) \/ PeerClose \/ Expire \/ SweepRemoves \/ LegacySelect
+
+\* ------------------- the table between connections, the next connection -------------------
+conn == <<c, phase, alive, todo, rcvd, sent, readn, written, dlSet, expired, peerClosed, matched, consumed, used, returned, swept, dlKnown>>
+Idle == phase = "returned" /\ conns < MaxConns /\ regLock = "free"
+\* the ingest worker that tracked R has finished its covert / liveness checks: AddRegistration
+Validate == /\ Idle /\ tab = "tracked"
+            /\ tab' = "valid" /\ entitled' = TRUE
+            /\ UNCHANGED <<snap, conns, conn, regLock, seeded>>     \* (nothing memoised may survive this - "fresh" never memoises)
+            /\ obs' = [a |-> "Validate"]
+\* R outlived its (unused or active) lifetime and the sweeper removed it
+SweepIdle == /\ Idle /\ tab # "gone"
+             /\ tab' = "gone" /\ entitled' = FALSE /\ snap' = "none"
+             /\ UNCHANGED <<conns, conn, regLock, seeded>>
+             /\ obs' = [a |-> "SweepIdle"]
+\* a new registration message for R: tracked again, to be validated again
+Retrack == /\ Idle /\ tab = "gone"
+           /\ tab' = "tracked" /\ snap' = "none"
+           /\ UNCHANGED <<entitled, conns, conn, regLock, seeded>>
+           /\ obs' = [a |-> "Retrack"]
+\* the next connection to the phantom meets the table (its lock, the generator) as the history left it
+NextConn(d) == /\ phase = "returned" /\ conns < MaxConns
+               /\ c' = d /\ conns' = conns + 1
+               /\ phase' = "init" /\ alive' = Transports /\ todo' = {}
+               /\ rcvd' = 0 /\ sent' = 0 /\ readn' = 0 /\ written' = 0
+               /\ dlSet' = FALSE /\ expired' = FALSE /\ peerClosed' = FALSE
+               /\ matched' = None /\ consumed' = 0 /\ used' = FALSE /\ returned' = FALSE
+               /\ swept' = FALSE /\ dlKnown' = FALSE
+               /\ UNCHANGED <<tab, entitled, snap, regLock, seeded>>
+               /\ obs' = [a |-> "NextConn", c |-> d]
+Table == Validate \/ SweepIdle \/ Retrack \/ (\E d \in Cases : NextConn(d))
+Peer == (\E k \in 1..3 : Send(k)) \/ PeerClose \/ Expire \/ SweepRemoves \/ LegacySelect \/ Table
 Next == Handler \/ Peer
 Spec == Init /\ [][Next]_vars /\ WF_vars(Handler) /\ WF_vars(Expire)
 
 \* ------------------------------ properties ------------------------------
 \* C03: nothing is written to a peer that has not authenticated
-NoBytes == written > 0 => (c.ok /\ rcvd >= c.H)
+NoBytes == written > 0 => (Ent /\ rcvd >= c.H)
 \* C03: no close (= return of the handler) before the deadline unless the peer closed first
 NoEarlyClose == (returned /\ matched = None /\ ~peerClosed) => expired
 \* C03: while unauthenticated and before the deadline the handler never stops reading; the only phase that does not
 \* read ("sleep") needs a valid tag
 KeepsReading == phase = "sleep" => c.terr
 \* C02: a match names the registration whose secret the flight proves, on this phantom, validated and unexpired
-MatchSound == matched # None => (c.ok /\ matched = c.t)
+MatchSound == matched # None => (Ent /\ matched = c.t)
+\* C02: the table says "valid" exactly for what the history entitles (what lookups hand to the transports)
+TableSound == (tab = "valid") <=> entitled
 \* C04: the transport consumes exactly the handshake bytes
 ConsumeExact == matched # None => consumed = c.H
 \* C04: whatever the segmentation, once the complete handshake has been read the registration is found
 \* (the handler is never back in "read" with a complete valid handshake in its buffer)
-FoundWhenComplete == (c.ok /\ phase = "read" /\ c.t \in alive) =>
+FoundWhenComplete == (Ent /\ phase = "read" /\ c.t \in alive) =>
                         (IF c.t = "obfs4" THEN rcvd # c.H ELSE rcvd < c.H)
-NeverDropsMatching == (c.ok /\ matched = None /\ phase \in {"read", "offer"} /\ rcvd <= c.H) => c.t \in alive
+NeverDropsMatching == (Ent /\ matched = None /\ phase \in {"read", "offer"} /\ rcvd <= c.H) => c.t \in alive
 MarkedUsed == phase = "relay" => (used \/ swept)
 \* C03: the classification deadline is drawn from a state no registrant has set
 DeadlineUnpredictable == ~dlKnown
 \* C04: the registration table stays usable for the next connection, whatever this one met
 RegistryFree == regLock = "free"
 \* liveness: a complete valid flight is eventually recognised; every connection eventually ends or is relayed
-Recognised == (c.ok /\ sent >= c.H /\ ~peerClosed) ~> (matched # None \/ peerClosed \/ expired)
-Terminates == <>(returned \/ phase = "relay")
+Recognised == (Ent /\ sent >= c.H /\ ~peerClosed) ~> (matched # None \/ peerClosed \/ expired)
+Terminates == []<>(returned \/ phase = "relay")
 =============================================================================
